@@ -157,7 +157,7 @@ def _ctx(env, variant, reserve=0):
     tables2 = {}
     consts = []
     extra = []          # number operands, sent as shapeless unmasked objects after the leaves
-    idx_ids, idxs, ams = {}, [], []
+    idx_ids, idxs, ams, bidxs = {}, [], [], []
 
     def leaf_ok(l):
         return (l['t'] == 'F' and not l.get('units') and set(l.get('derivs', {})) <= {'t'}
@@ -317,6 +317,10 @@ def _ctx(env, variant, reserve=0):
                 tab2(fn, a._values_, np.where(np.asarray(b._values_) == 0, 1., b._values_))
                 tab2(fn, a._values_, 1.)
             else:
+                if any(o in ('median', 'max', 'min', 'sort', 'red_o') for o in O.tree_ops(node)):
+                    # the SIGN of a zero produced by np.median / np.max ties / np.sort is not modelled (it is invisible
+                    # everywhere except through arctan2)
+                    raise Unsupported()
                 tab2('atan2', a._values_, b._values_)
             return ['bin', name, t1, t2], run(name, params, [a, b])
         if name in BIN:
@@ -364,8 +368,22 @@ def _ctx(env, variant, reserve=0):
                     node[2][0] != 'v' or node[2][1] >= len(env) or node[2][1] in getattr(go, 'inexact', ())):
                 raise Unsupported()          # NumPy's pairwise summation order is not modelled for inexact operands
             return ['red', name, axes, t], run(name, params, [x])
+        if name == 'getitem' and params == ['i'] and node[3][0] == 'v' and node[3][1] < len(env) \
+                and env[node[3][1]]['t'] == 'B' and len(env[node[3][1]]['shape']) == 1:
+            # a (masked) Boolean array index over the first axis
+            t, x = go(node[2])
+            bl = env[node[3][1]]
+            if x is not None and (not isinstance(x, Scalar) or not x._shape_ or x._shape_[0] != bl['shape'][0]):
+                raise Unsupported()
+            key = ('B', node[3][1])
+            if key not in idx_ids:
+                idx_ids[key] = len(bidxs)
+                data = bl['vals'] if variant == 'A' else bl['alt']
+                bidxs.append([bl['shape'], [bool(v) for v in data], mask_sx(bl['mask'], bl['shape'])])
+            r = None if x is None else run(name, params, [x, objs[node[3][1]]])
+            return ['indexB', t, idx_ids[key]], r
         if name == 'getitem':
-            if params != ['i'] or node[3][0] != 'v' or env[node[3][1]]['t'] != 'I':
+            if params != ['i'] or node[3][0] != 'v' or node[3][1] >= len(env) or env[node[3][1]]['t'] != 'I':
                 raise Unsupported()
             t, x = go(node[2])
             il = env[node[3][1]]
@@ -417,7 +435,7 @@ def _ctx(env, variant, reserve=0):
         tb = [[fn] + [[x, y] for x, y in sorted(rows.items())] for fn, rows in sorted(tables.items())]
         tb2 = [[fn] + [[x, y, z] for (x, y), z in sorted(rows.items())] for fn, rows in sorted(tables2.items())]
         return ['c03', sx_tree, ['objs'] + obj_sx, ['idxs'] + idxs, ['ams'] + ams, ['tables'] + tb, ['tables2'] + tb2,
-                ['consts'] + list(consts), bits(EXP_CUTOFF)]
+                ['consts'] + list(consts), ['bidxs'] + bidxs, bits(EXP_CUTOFF)]
 
     go.index_slot = index_slot
     return go, finish, objs
